@@ -256,10 +256,26 @@ Lemma mkdir_unfold s parts :
     | Ok pr =>
       if negb (r_exists pr) then (s, Err FileNotFound)
       else if negb (r_isdir pr) then (s, Err NotADirectory)
-      else mkdir_tail s pr (leaf parts)
+      else match Model.make_entry upper (r_index pr) (items_of s (r_index pr)) (leaf parts) 16 0 with
+           | Err e => (s, Err e)
+           | Ok _ => mkdir_tail s pr (leaf parts)
+           end
     end
   end.
-Proof. reflexivity. Qed.
+Proof.
+  unfold Model.mkdir, mkdir_tail. destruct (negb (valid_parts parts)); [reflexivity|].
+  destruct (resolve s parts) as [r|x]; [|reflexivity]. destruct (r_exists r); [reflexivity|].
+  destruct (resolve s (parent parts)) as [pr|x]; [|reflexivity].
+  destruct (negb (r_exists pr)); [reflexivity|]. destruct (negb (r_isdir pr)); [reflexivity|].
+  destruct (Model.make_entry upper (r_index pr) (items_of s (r_index pr)) (leaf parts) 16 0); reflexivity.
+Qed.
+(* under the creation guard the name check of mkdir passes *)
+Lemma guard_names_ok s parts pr : guard_create upper s parts -> resolve s parts = Ok RNone ->
+  resolve s (parent parts) = Ok pr -> r_isdir pr = true ->
+  exists e, Model.make_entry upper (r_index pr) (items_of s (r_index pr)) (leaf parts) 16 0 = Ok e.
+Proof.
+  intros G R Rp Dp. destruct (G pr R Rp Dp) as (e0 & Me & _). rewrite (make_entry_attr upper), Me. eexists; reflexivity.
+Qed.
 
 Theorem mkdir_inv s parts : VolInv s -> guard_create upper s parts -> VolInv (fst (mkdir s parts)).
 Proof.
@@ -267,6 +283,7 @@ Proof.
   destruct (resolve s parts) as [r|x] eqn:R; [|exact I]. destruct r as [| |i e]; try exact I. cbn [r_exists].
   destruct (resolve s (parent parts)) as [pr|x] eqn:Rp; [|exact I].
   destruct (r_exists pr); [|exact I]. cbn [negb]. destruct (r_isdir pr) eqn:Dp; [|exact I]. cbn [negb].
+  destruct (guard_names_ok s parts pr G R Rp Dp) as (e1 & ->).
   apply (mkdir_tail_spec s parts pr I G R Rp Dp).
 Qed.
 
@@ -298,6 +315,7 @@ Proof.
   destruct pr as [| |pi pe].
   - rewrite WP. reflexivity.
   - cbn [r_exists r_isdir negb] in *. rewrite (Hnode eq_refl).
+    destruct (guard_names_ok s parts RRoot G R Rp eq_refl) as (e1 & Me1). rewrite Me1 in *.
     destruct (mkdir_tail_spec s parts RRoot I G R Rp eq_refl) as (Ii & _ & Cases). cbn zeta in Cases.
     destruct Cases as [[Eo _]|(Eo & e' & c & Hd & En & Ec & Nst & Ll & Lc & Lo)]; [exfalso; apply NE; exact Eo|].
     rewrite Eo. f_equal. rewrite !abs_tree_A. symmetry.
@@ -312,6 +330,7 @@ Proof.
   - cbn [r_exists r_isdir negb] in *. destruct (is_dir pe) eqn:Dpe; cbn [negb] in *.
     2:{ destruct WP as (_ & -> & _). cbn [cur_node]. unfold ProofsTree.node_of. rewrite Dpe. reflexivity. }
     rewrite (Hnode eq_refl).
+    destruct (guard_names_ok s parts (RFound pi pe) G R Rp Dpe) as (e1 & Me1). rewrite Me1 in *.
     destruct (mkdir_tail_spec s parts (RFound pi pe) I G R Rp Dpe) as (Ii & _ & Cases). cbn zeta in Cases.
     destruct Cases as [[Eo _]|(Eo & e' & c & Hd & En & Ec & Nst & Ll & Lc & Lo)]; [exfalso; apply NE; exact Eo|].
     rewrite Eo. f_equal. rewrite !abs_tree_A. symmetry.
